@@ -605,6 +605,8 @@ func (jp *jobProvider) truncateJob(job *Job) {
 	job.ignoreEventsLE = job.lastEventSeq
 
 	job.seek(0, io.SeekStart, "truncation")
+	// the held beginning of an unfinished line belongs to the old content
+	job.tail = job.tail[:0]
 
 	for _, strOff := range job.offsets {
 		job.offsets.Set(strOff.Stream, 0)
